@@ -125,7 +125,7 @@ pub fn arr_of(st: &Step) -> [u64; 4] {
     [b, c, d & 0xffff_ffff, b ^ 1]
 }
 
-fn apply_real<Q: QT>(q: &mut Q, st: &Step) {
+pub fn apply_real<Q: QT>(q: &mut Q, st: &Step) {
     let f = <Q::P as PT>::fb;
     let [a, b, c, d] = st.p;
     match st.code {
